@@ -93,8 +93,11 @@ pub(crate) fn check_leaf_prefix(kind: ValueKind, b: &[u8], depth: u8) {
 /// Strings: skip does not validate UTF-8, decode does; otherwise they agree. Length prefix is a
 /// literal (0..=3, and the two-byte varint form `[252, n]`), content symbolic.
 pub(crate) fn check_string(arr: &[u8], content_at: usize, n: usize) {
-    let depth: u8 = kani::any();
-    kani::assume(depth < 32);
+    check_string_at(arr, content_at, n, 0);
+    check_string_at(arr, content_at, n, 31);
+}
+
+fn check_string_at(arr: &[u8], content_at: usize, n: usize, depth: u8) {
     let (rs, cs) = run_skip(arr, depth);
     let (rv, cv) = run_value(arr, depth);
     let fits = arr.len() >= content_at + n;
